@@ -69,7 +69,7 @@ func applyStructuralFaults(r *rand.Rand, g *Graph) []string {
 		}
 		f := pick(r, g.Families)
 		p := pick(r, g.People)
-		kind := r.IntN(18)
+		kind := r.IntN(19)
 		switch kind {
 		case 0:
 			applied = append(applied, "missing-spouse-record")
@@ -100,7 +100,18 @@ func applyStructuralFaults(r *rand.Rand, g *Graph) []string {
 			}
 		case 4:
 			applied = append(applied, "individual-without-name")
+			if r.IntN(2) == 0 {
+				p = g.People[0] // the first row of a result decides the columns of a table
+			}
 			p.Names = nil
+		case 17:
+			// a NAME line without a value, the parts below it
+			applied = append(applied, "name-only-in-parts")
+			if r.IntN(2) == 0 {
+				p = g.People[0]
+			}
+			p.Names = nil
+			p.Lines = append(p.Lines, "1 NAME", "2 GIVN John", "2 SURN Smith")
 		case 5:
 			applied = append(applied, "name-without-surname")
 			p.Names = []string{pick(r, []string{"John", "", "//", "/ /", "Anna Maria"})}
@@ -215,7 +226,11 @@ func genCommandCase(prop, tier string, r *rand.Rand) *Case {
 	default:
 		cmd.Command = "query"
 		cmd.Query = pick(r, exampleQueries)
-		cmd.Format = pick(r, []string{"json", "pretty-json", "csv", "gedcom", "html"})
+		cmd.Format = pick(r, []string{"json", "pretty-json", "csv", "csv", "gedcom", "html"})
+		if cmd.Format == "csv" && r.IntN(2) == 0 {
+			// results whose rows need not all have the same columns
+			cmd.Query = pick(r, []string{`.Individuals | .Name`, `.Warnings`, `.Individuals | .AllEvents`})
+		}
 		if r.IntN(5) == 0 {
 			// the documented "merge two GEDCOM files" command: a second file,
 			// the same one or a revision of it
